@@ -14,6 +14,13 @@ theorem C17_class : ∀ c, isWs c = true ↔ c ∈ [9, 10, 12, 13, 32] := by
     Bool.and_eq_true, decide_eq_true_eq, List.mem_cons, List.not_mem_nil, or_false]
   omega
 
+/-- TableOK: the preserve set is exactly pre, textarea and the raw-text elements
+(iframe noembed noframes noscript pre script style textarea xmp). -/
+theorem C17_preserve_set : spacePreserveElements =
+    [[105, 102, 114, 97, 109, 101], [110, 111, 101, 109, 98, 101, 100], [110, 111, 102, 114, 97, 109, 101, 115],
+     [110, 111, 115, 99, 114, 105, 112, 116], [112, 114, 101], [115, 99, 114, 105, 112, 116], [115, 116, 121, 108, 101],
+     [116, 101, 120, 116, 97, 114, 101, 97], [120, 109, 112]] := by decide
+
 /-- characters outside the five (e.g. U+00A0, U+2003) are not whitespace for the filter -/
 theorem C17_nonascii (c : Nat) (h : 32 < c) : isWs c = false := by
   cases hc : isWs c with
